@@ -179,6 +179,58 @@ func c20(c *core.Ctx) {
 				}
 			}
 			c.Check("rcvBlockLoop:Iterate≺Timer.Reset", "order", rearm, it.Pos(), "the timer is re-armed after the cache walk on every path")
+			// ... and on every way round the loop that consumed a tick: from the entry of the select case that receives from the timer's
+			// channel no path leads back to the select without passing Timer.Reset (a tick that is consumed without re-arming is the last one)
+			okTick, nTick := true, 0
+			for _, b := range loop.Blocks {
+				for _, in := range b.Instrs {
+					sel, isSel := in.(*ssa.Select)
+					if !isSel {
+						continue
+					}
+					for k, stt := range sel.States {
+						isTimer := false
+						for v := range core.SliceShallow(stt.Chan) {
+							if f := core.FieldOf(v); f != nil && f.Name() == "C" && f.Pkg() != nil && f.Pkg().Path() == "time" {
+								isTimer = true
+							}
+						}
+						if !isTimer {
+							continue
+						}
+						// the block entered when the select index equals k
+						var entry *ssa.BasicBlock
+						for _, bb := range loop.Blocks {
+							ifi := ifOf(bb)
+							if ifi == nil {
+								continue
+							}
+							bo, ok := ifi.Cond.(*ssa.BinOp)
+							if !ok || bo.Op != token.EQL {
+								continue
+							}
+							kc, ok := bo.Y.(*ssa.Const)
+							ex, ok2 := bo.X.(*ssa.Extract)
+							if !ok || !ok2 || ex.Tuple != ssa.Value(sel) || ex.Index != 0 || kc.Value == nil || kc.Int64() != int64(k) {
+								continue
+							}
+							entry = bb.Succs[0]
+						}
+						if entry == nil {
+							continue
+						}
+						nTick++
+						avoid := map[*ssa.BasicBlock]bool{}
+						for _, r := range core.CallsIn(loop, reset) {
+							avoid[r.Block()] = true
+						}
+						if !avoid[entry] && core.ReachCutAvoid(entry, nil, avoid)[sel.Block()] {
+							okTick = false
+						}
+					}
+				}
+			}
+			c.Check("rcvBlockLoop:every-tick-re-arms", "order", okTick && nTick >= 1, it.Pos(), "from the timer case no path returns to the select around Timer.Reset (%d timer case(s))", nTick)
 			// the callback inserts a cached block exactly when its parent is known and reports it for removal
 			var cb *ssa.Function
 			a := it.Common().Args
